@@ -704,11 +704,24 @@ func checkCommitQuorum(c *simkit.Ctx, net *world.VbftNet, sigBase string) {
 					}
 				}
 			}
+			// commit messages for the proposal and for the empty block of the same proposer (two different hashes)
+			sawEmpty, sawFull := false, false
+			for _, m := range commits {
+				if m.Proposer == proposer {
+					if m.ForEmpty {
+						sawEmpty = true
+					} else {
+						sawFull = true
+					}
+				}
+			}
 			switch {
 			case forged:
 				sig += "/unverified-endorser-claims-in-commit"
 			case dupEndorse:
 				sig += "/one-peer-endorsements-counted-twice"
+			case sawEmpty && sawFull:
+				sig += "/commits-for-block-and-empty-block-pooled"
 			case proposerVotes:
 				sig += "/proposer-counted-twice"
 			default:
